@@ -31,19 +31,20 @@ import (
 func init() { subcommands["hdr"] = hdrMain }
 
 type hdrExp struct {
-	Verdict   string `json:"verdict"`
-	Tip       int    `json:"tip"`
-	Chain     []int  `json:"chain"`
-	Delta     []int  `json:"delta"`
-	Acc       []int  `json:"acc"`
-	Unsure    []int  `json:"unsure"`
-	FloorB    int    `json:"floorB"`
-	Invalid   []int  `json:"invalid"`
-	Best      []int  `json:"best"`
-	NSubs     int    `json:"nsubs"`
-	Ever      []int  `json:"ever"`
-	SavedWork int    `json:"savedWork"`
-	MaxTips   []int  `json:"maxtips"`
+	Verdict   string   `json:"verdict"`
+	Tip       int      `json:"tip"`
+	Chain     []int    `json:"chain"`
+	Delta     []int    `json:"delta"`
+	Acc       []int    `json:"acc"`
+	Unsure    []int    `json:"unsure"`
+	FloorB    int      `json:"floorB"`
+	Invalid   []int    `json:"invalid"`
+	Best      []int    `json:"best"`
+	NSubs     int      `json:"nsubs"`
+	Ever      []int    `json:"ever"`
+	SavedWork int      `json:"savedWork"`
+	MaxTips   []int    `json:"maxtips"`
+	Alts      []string `json:"alts"` // every refusal reason that applies (C08 does not order them)
 }
 
 type hdrOp struct {
@@ -469,7 +470,11 @@ func (w *hdrWorld) run() {
 					}
 				}
 				w.cmp("C08")
-				if cls != wantClass(op.Exp.Verdict) {
+				altOK := false
+				for _, a := range op.Exp.Alts {
+					altOK = altOK || cls == wantClass(a)
+				}
+				if cls != wantClass(op.Exp.Verdict) && !altOK {
 					lbl := "C08"
 					if op.Exp.Verdict == "ok" {
 						lbl = "C08+C01" // C01: "a submission that returns an error never leaves a strictly heavier accepted chain unreported"
@@ -843,6 +848,15 @@ func (w *hdrWorld) observe(step int, op hdrOp, prev *hdrExp) {
 	// ---- C09 / C17: lookups of every pool block
 	// The best-chain flag is judged against the chain the repository itself reports.
 	lp := w.lookupProp(op)
+	// the genesis header is an ancestor of every tip, in memory or not
+	if hh := repo.HashHeight(w.genesis); hh != 0 {
+		w.cmp("C09")
+		w.fail(lp, step, op, fmt.Sprintf("HashHeight(genesis) got %d want 0", hh))
+	} else if ch, isL, cerr := repo.CheckHeader(w.ctx, w.genesis); cerr != nil || ch != 0 || !isL {
+		w.fail(lp, step, op, fmt.Sprintf("CheckHeader(genesis) got %d,%v,%s want 0,true,nil", ch, isL, hdrClassify(cerr)))
+	} else if _, ght, gl, gerr := repo.GetHeader(w.ctx, w.genesis); gerr != nil || ght != 0 || !gl {
+		w.fail(lp, step, op, fmt.Sprintf("GetHeader(genesis) got height %d best %v %s", ght, gl, hdrClassify(gerr)))
+	}
 	for b := 1; b <= N; b++ {
 		known := inSet(exp.Acc, b)
 		unsure := inSet(exp.Unsure, b)
